@@ -12,7 +12,7 @@ RULE = ('(a) gate correspondence on a harness plugin loaded into the live bot: g
         'NestedCommandsIrcProxy -> _callCommand run is compared event by event with the extracted model; checkCommandCapability, '
         'DefaultCapabilities.setValue sequences and ircdb.checkIgnored are compared on their own (incl. hostile names).  (b) live bot, worker '
         'processes: EVERY command of every loadable bundled plugin x 13 caller roles (owner, admin, channel-op, plain registered, unregistered, '
-        'ignored, and secure owner/admin/channel-op accounts addressed from a non-matching hostmask: identified there by password before `secure` was set, never identified, identified from a mask removed later; plus accounts holding only #chan,voice / #chan,halfop, over the channel-related commands; plus, for the commands whose body picks the required capability from its arguments (Channel voice/devoice), argument lists mixing the caller\'s own nick, other nicks, both and none) x addressing forms (prefix char, nick, private, nick at end) x wrappers (direct, plugin-qualified, '
+        'ignored, and secure owner/admin/channel-op accounts addressed from a non-matching hostmask: identified there by password before `secure` was set, never identified, identified from a mask removed later; plus accounts holding only #chan,voice / #chan,halfop, over the channel-related commands; plus, for the commands whose body picks the required capability from its arguments (Channel voice/devoice), argument lists mixing the caller\'s own nick, other nicks, both and none; plus `config channel [<network>] #a,#b,... <name> <value>` with channel lists of which the caller is op of only some, both orders, `*` network, nested: per-channel registry values compared before/after) x addressing forms (prefix char, nick, private, nick at end) x wrappers (direct, plugin-qualified, '
         'nested [..], piped, Alias, Aka, Scheduler fired with a patched clock) x default-capability settings (stock, default-deny, anti-capability '
         'of the command / of the plugin in the default set, in the channel, on the account): every command body is wrapped to log calls, '
         'ircdb.users/channels/ignores, the registry, irc.callbacks and world.ircs are snapshotted before/after; the model predicts the gate '
@@ -84,9 +84,26 @@ LACKING_ROLES = ('plain', 'unreg', 'chanop', 'admin', 'secure', 'secadmin')
 # applies (docstrings + the channel-operator clause of the property): (de)voicing yourself takes #channel,voice,
 # (de)voicing anybody else takes #channel,op.  {me} = the caller's own nick.
 CHANCAP_ROLES = ('voiced', 'halfopped')
+# `config channel [<network>] #a,#b,... <name> <value>`: the multi-channel form, from callers who are op of only some of the
+# listed channels (#test is the only channel any role is op of), both orders, with the `*` network, in channel / private / nested
+CONFCHAN = ('Config', 'channel')
+CONFCHAN_LISTS = ['#other,#test', '#test,#other', '#other', '#test', '#other,#test,#oth2', '#oth2,#other,#test', '#test,#other,#test', '#other,#oth2']
+CONFCHAN_ROLES = ('chanop', 'secchanop', 'halfopped', 'plain', 'admin', 'unreg')
+CONFCHAN_VAR = 'plugins.Channel.partMsg'
 ARGDEP = [('Channel', 'voice'), ('Channel', 'devoice')]
 ARGDEP_ARGS = ['', '{me}', '{other}', '{me} {other}', '{other} {me}', '{other} {other2}', '{ME}', '{me} {me}', '{other} {me} {other2}']
 ARGDEP_ROLES = ('voiced', 'halfopped', 'plain', 'chanop', 'unreg', 'secchanop', 'admin')
+
+
+def conf_walk(B, name):
+    """the registry nodes on the path of a value name"""
+    parts = name.split('.')
+    g = getattr(B['conf'], parts[0])
+    out = [g]
+    for part in parts[1:]:
+        g = g.get(part)
+        out.append(g)
+    return out
 
 
 def argdep_rule(B, plugin, cmd, received, caller):
@@ -328,6 +345,11 @@ def wrap_bodies(B, cb, plugin, path):
             def mk(f, key):
                 def body(self, irc, msg, args, *a, **k):
                     LOG.append(('body', key[0], key[1]))
+                    if key == CONFCHAN and len(a) >= 4:
+                        try:
+                            LOG.append(('bodyargs', key[0], key[1], ['*' if a[0] == '*' else a[0].network, [str(x) for x in a[1]], a[2]._name, a[3] is not None]))
+                        except Exception:
+                            pass
                     if key in ARGDEP and len(a) >= 2:
                         # what the command was actually asked to act on (Alias / Aka / nesting may re-quote the typed arguments)
                         LOG.append(('bodyargs', key[0], key[1], [str(a[0]), [str(x) for x in (a[1] or [])]]))
@@ -568,6 +590,19 @@ def restore(B):
                 changed.append(n)
             except Exception:
                 pass
+    extra = [n for n, _ in conf.supybot.getValues(getChildren=True, fullNames=True) if n not in B['snap_registry']]
+    for n in sorted(extra, key=len, reverse=True):
+        import supybot.registry as _registry
+        parts = _registry.split(n)
+        if not any(x.startswith('#') or x.startswith(':') for x in parts):
+            continue
+        try:
+            g = conf.supybot
+            for part in parts[1:-1]:
+                g = g.get(part)
+            g.unregister(parts[-1])
+        except Exception:
+            pass
     irc = B['irc']
     if irc.nick != 'test' or CHAN not in irc.state.channels:
         im = B['ircmsgs']
@@ -919,7 +954,7 @@ def live_one(B, inv):
                 except Exception:
                     pass
     if inbody:
-        if ch:
+        if ch and (plugin, cmd) != CONFCHAN:     # `config channel #a,#b`: the channels before the refused one are written; checked per channel below
             fails.append('the body of %s %s found that the caller lacks %s but state changed: %s' % (plugin, cmd, inbody[0], '; '.join(ch)[:300]))
         bad = [m for m in outs if not is_error_reply(B, m, role, helps)]
         if bad:
@@ -928,6 +963,41 @@ def live_one(B, inv):
     st['inbody_denials'] = st.get('inbody_denials', 0) + (1 if inbody else 0)
     if B.get('blanked') and (lacks or inbody) and not ignored:
         st['blank_denials'] = st.get('blank_denials', 0) + 1
+    # `config channel` with a channel list: per-channel values before/after for every listed channel the caller is not op of
+    cc = next((e[3] for e in log if e[0] == 'bodyargs' and (e[1], e[2]) == CONFCHAN), None) if (plugin, cmd) == CONFCHAN else None
+    if cc is not None and cc[3] and not ignored:
+        netname, chans_l, gname, _ = cc
+        opset = True
+        try:
+            g = conf_walk(B, gname)
+            opset = all(getattr(x, '_opSettable', True) for x in g)
+        except Exception:
+            pass
+        st['confchan'] = st.get('confchan', 0) + 1
+        written = []
+        for chn in chans_l:
+            for net, key in ((False, '%s.%s' % (gname, chn)), (True, '%s.\\:%s.%s' % (gname, netname, chn))):
+                if pre['registry'].get(key) != post['registry'].get(key):
+                    if [chn, net] not in written:
+                        written.append([chn, net])
+                    need_cap = '%s,op' % chn if opset else 'owner'
+                    try:
+                        short = not ircdb.checkCapability(eval_prefix or prefix, need_cap)
+                    except Exception:
+                        short = False
+                    if short:
+                        fails.append('caller lacks %s but `config channel %s ...` changed %s: %r -> %r'
+                                     % (need_cap, ','.join(chans_l), key, pre['registry'].get(key), post['registry'].get(key)))
+        if rec is not None and bodies:
+            inb = [e[1] for e in seg[next(i for i, e in enumerate(seg) if e[0] == 'body'):] if e[0] == 'nocap']
+            final = ['denied', str(inb[0])] if inb else (['success'] if any('operation succeeded' in str(m) for m in outs) else None)
+            if final is not None:
+                ro = False
+                try:
+                    ro = bool(sys.modules[type(irc.getCallback('Config')).__module__].isReadOnly(gname))
+                except Exception:
+                    pass
+                rec['confchan'] = {'case': [dbwire, opset, ro, netname != '*', chans_l], 'impl': {'writes': sorted(written), 'final': final}}
     # argument-dependent requirement (Channel voice / devoice)
     caller_nick = prefix.split('!')[0]
     received = next((e[3] for e in log if e[0] == 'bodyargs' and (e[1], e[2]) == (plugin, cmd)), None)
@@ -1005,6 +1075,17 @@ def plan(B, rng, mode, cmds, flt=None):
                 for form in ('char', 'priv', 'nick'):
                     invs.append({'op': 'live', 'role': role, 'form': form, 'wrapper': 'plugin' if mode == 'quick' else rng.choice(['plugin', 'direct', 'nested', 'sched']),
                                  'plugin': p, 'cmd': c, 'args': ('#test ' + a2).strip() if form == 'priv' else a2, 'setting': 'stock'})
+    # `config channel` with channel lists
+    if CONFCHAN in have0:
+        k = 0
+        for role in CONFCHAN_ROLES:
+            for lst in CONFCHAN_LISTS:
+                for netw in ('', '* ', 'test '):
+                    k += 1
+                    form = FORMS[k % len(FORMS)]
+                    wrapper = ('plugin', 'nested', 'plugin', 'direct')[k % 4] if mode == 'quick' else rng.choice(['plugin', 'nested', 'direct', 'sched', 'piped'])
+                    invs.append({'op': 'live', 'role': role, 'form': form, 'wrapper': wrapper, 'plugin': 'Config', 'cmd': 'channel',
+                                 'args': '%s%s %s zz' % (netw, lst, CONFCHAN_VAR), 'setting': 'stock'})
     # the in-body checks under blank denial messages, for every role lacking the capability
     have = set(cmds)
     for (p, c, a) in INBODY:
@@ -1211,6 +1292,18 @@ def collect_live(ctx, procs):
     if len(ctx.samples) < 12 and recs:
         ctx.samples.append({'kind': 'live', 'input': recs[0]['inv']})
     # model: the full case and the gate-only case (method = None) to tell gate refusals from converter refusals
+    crecs = [r for r in recs if r.get('confchan')]
+    for r, mo in zip(crecs, ctx.model([[8, r['confchan']['case']] for r in crecs])):
+        if mo is None:
+            continue
+        writes = sorted({(wire.s(w[1]), bool(w[2])) for w in mo if w[0] == 0})
+        writes = [list(x) for x in writes]
+        last = mo[-1] if mo else [9]
+        final = ['denied', wire.s(last[1])] if last[0] == 1 else (['success'] if last[0] == 3 else ['other'])
+        model = {'writes': writes, 'final': final}
+        if model != r['confchan']['impl']:
+            ctx.disagree(r['inv'], model, r['confchan']['impl'], 'Config.channel: per-channel check-and-write loop')
+    ctx.notes.append('Config.channel multi-channel writes compared with the model: %d' % len(crecs))
     vrecs = [r for r in recs if r.get('voice')]
     for r, mo in zip(vrecs, ctx.model([[7, r['voice']['case']] for r in vrecs])):
         if mo is None:
